@@ -951,6 +951,7 @@ class ModuleTestCluster(TestCluster):  # noqa: PLR0904
         if isinstance(generator, GenericCallableAccessibleObject):
             self.__callables.add(generator)
         self.generator_provider.add(generator)
+        self.get_all_generatable_types.cache_clear()
 
     def add_accessible_object_under_test(  # noqa: D102
         self, objc: GenericAccessibleObject, data: CallableData
